@@ -467,6 +467,13 @@ pub fn check_c03(tier: Tier, seed: u64) -> i32 {
     ];
     let cases = tier.pick(2500, 60_000);
     check.run_random("random", cases, fcase3, exec_c03);
+    for t in ["fmt_entry", "fmt_entry_struct", "fmt_blob_index"] {
+        crate::fuzzglue::replay_seed_corpus(&check, t);
+    }
+    if tier == Tier::Thorough {
+        crate::fuzzglue::campaign(&check, "fmt_entry_struct", 10_000_000, 512);
+        crate::fuzzglue::campaign(&check, "fmt_blob_index", 10_000_000, 8192);
+    }
     check.set_extra("fault_runs", serde_json::json!(FAULT_RUNS.load(std::sync::atomic::Ordering::Relaxed)));
     check.set_extra("fault_runs_where_faulted_page_was_read", serde_json::json!(FAULTS_READ.load(std::sync::atomic::Ordering::Relaxed)));
     check.finish()
